@@ -29,7 +29,9 @@ def hx(x):
 
 # classes of former findings that have been repaired in /repo: they suppress nothing; their pinned corpus cases are
 # regression obligations
-FIXED_CLASSES = {"transformed-drops-limits", "transformed-normal-zeros-like", "beta-project-raises", "fixed-sdiv"}
+FIXED_CLASSES = {"transformed-drops-limits", "transformed-normal-zeros-like", "beta-project-raises", "fixed-sdiv",
+                 "product-drops-lognorm", "transformed-project-raw-samples", "transformed-project-drops-kwargs",
+                 "mixed-shape-broadcast", "mixed-parameter-shapes"}
 
 # ---------------------------------------------------------------------------
 # generator
@@ -727,24 +729,11 @@ def case_classes(c, res, aspect):
     any other wrong value is a VIOLATION."""
     cl = []
     if c["kind"] == "alg":
-        if aspect in ("log_norm@product-drops", "exception@transformed-no-lognorm"):
-            cl.append("product-drops-lognorm")
+        pass
+        # (log_norm@product-drops / exception@transformed-no-lognorm: former finding fixed by e239f62, no class any more)
         # (log_norm@fixed-sdiv is the former finding fixed by 7b98f8b: no class any more, a recurrence is a VIOLATION)
-        if aspect in ("mixed@broadcast-axis", "mixed@raises") and c.get("mixed"):
-            cl.append("mixed-shape-broadcast")
-    elif c["kind"] == "mixedparam":
-        if aspect == "mixedparam@raises":
-            cl.append("mixed-parameter-shapes")
-    elif c["kind"] == "proj":
-        if c.get("t") is not None:
-            nonid = any(t[0] != "shift" or (unhex(t[1]), unhex(t[2])) != (0.0, 1.0) for t in c["t"]["stack"])
-            outside = c["fam"] == "gamma" and any(unhex(h) <= 0.0 for row in c["samples"] for h in row)
-            if aspect == "exception" and nonid and outside and res.get("exc") == "AssertionError":
-                cl.append("transformed-project-raw-samples")   # a raw sample is outside the support of the base
-            if aspect == "stats@raw-samples" and nonid:
-                cl.append("transformed-project-raw-samples")
-            if aspect in ("t-limits", "limits", "id"):
-                cl.append("transformed-project-drops-kwargs")
+        # (mixed@broadcast-axis / mixed@raises, mixedparam@raises, stats@raw-samples, t-limits of project: former findings
+        #  fixed by b6020a2, 6cf8670, ffa313c -- a recurrence is a VIOLATION)
     elif c["kind"] in ("dens", "lpdf"):
         d = res["desc"]
         if d.get("t") is not None:
@@ -1441,8 +1430,8 @@ def run(ctx):
         "directly from the libraries on keys derived by an independent sequential re-computation",
         "numpy elementwise +,-,*,/,sqrt are IEEE-754 correctly rounded; np.mean over <8 contiguous items or over a non-contiguous "
         "axis adds sequentially (measured on this platform while building the check)",
-        "modelled not verified: numpy broadcasting between messages of different shapes (judged by the oracle only: pinned known "
-        "findings), scipy quadrature / scipy.stats densities and quantiles / scipy.optimize.brentq used by the numerical oracles",
+        "modelled not verified: numpy broadcasting between messages of different shapes (judged by the oracle only: the "
+        "elementwise expectation; formerly two findings, repaired), scipy quadrature / scipy.stats densities and quantiles / scipy.optimize.brentq used by the numerical oracles",
     ]
     ctx.assumptions = [
         "algebraic theorems are over exact rationals (gamma, beta, natural-normal, fixed; any number of array elements) and over "
@@ -1474,7 +1463,8 @@ def run(ctx):
                 entry = json.load(open(os.path.join(corpus_dir, f)))
                 cases.insert(0, entry["case"])
                 if entry.get("class") in FIXED_CLASSES:
-                    regression[id(entry["case"])] = f
+                    sig = [k["signature"] for k in common.load_known("C17") if k.get("match", {}).get("class") == entry["class"]]
+                    regression[id(entry["case"])] = (sig[0] if sig else f[:-5])
     reg_bad = {}
     if ctx.replay:
         rp = json.load(open(ctx.replay))
@@ -1564,7 +1554,7 @@ def run(ctx):
         if not ctx.replay:
             # the pinned case of every repaired finding must now satisfy the property and agree with the repaired model
             for cid, fname in sorted(regression.items(), key=lambda kv: kv[1]):
-                ctx.obligation("regression:" + fname[:-5], "regression", cid not in reg_bad and bad is not None,
+                ctx.obligation("regression:" + fname, "regression", cid not in reg_bad and bad is not None,
                                "; ".join(reg_bad.get(cid, [])) or "former finding stays repaired")
         if bad:
             seen = set()
